@@ -23,6 +23,8 @@ static uint8_t KEY[48], TWEAK[16], CTRV[16], DATA[1024], TW[1024];
 static unsigned long last_errs;
 static const char *cur_fn = "";
 static char cur_case[200];
+/* --replay <case>: only the named case is executed (stand-alone confirmation of a reported violation) */
+#define CASE_SKIP() (g_opts.replay && strcmp(cur_case, g_opts.replay) != 0)
 
 /* Places a buffer of n bytes at alignment offset a (mod 32) in region r.  fill: source
  * bytes or NULL (output buffer, painted 0xEE).  Everything else in the region becomes
@@ -63,7 +65,9 @@ static void fail(const char *cls, const char *fmt, ...)
 /* crash attribution: a library call that faults (e.g. an aligned vector access on an unaligned
  * buffer) is reported as that case's outcome by the guarding parent, and the case is skipped
  * in the restarted child */
-#define GUARDED(call) do { char sb_[120]; snprintf(sb_, sizeof(sb_), "C09/%s", cur_fn); if (!guard_enter(sb_, cur_case)) { call; guard_leave(); } } while (0)
+/* (a block, not do-while: a case whose call crashed in an earlier incarnation of the child is
+ * skipped as a whole - the crash is already reported and there is no result to compare) */
+#define GUARDED(call) { char sb_[120]; snprintf(sb_, sizeof(sb_), "C09/%s", cur_fn); if (guard_enter(sb_, cur_case)) continue; call; guard_leave(); }
 
 /* after a call: memcheck errors, canaries */
 static void after_call(int nreg, const int *regs, uint8_t *const *ptrs, const size_t *lens)
@@ -107,6 +111,7 @@ static void run_single(void)
             at = (ai * 7 + ao * 3) & 31;
             tw = place(2, at, 8, TW);
             snprintf(cur_case, sizeof(cur_case), "c09 single %d in+%d out+%d tweak+%d", f, ai, ao, at);
+            if (CASE_SKIP()) continue;
             GUARDED(sb_call(f, out, in, tw));
             ptrs[0] = in; ptrs[1] = out; ptrs[2] = tw; lens[0] = bs; lens[1] = bs; lens[2] = 8;
             after_call(3, regs, ptrs, lens);
@@ -123,6 +128,7 @@ static void run_single(void)
             buf = place(0, ai, span, img);
             in = buf + (d < 0 ? -d : 0); out = buf + (d > 0 ? d : 0);
             snprintf(cur_case, sizeof(cur_case), "c09 overlap %d out=in%+d align+%d", f, d, ai);
+            if (CASE_SKIP()) continue;
             GUARDED(sb_call(f, out, in, TW));
             p1[0] = buf; l1[0] = span;
             after_call(1, regs1, p1, l1);
@@ -141,6 +147,7 @@ static void run_setup_args(void)
     for (len = 16; len <= 48; ++len) for (a = 0; a < 32; a += (tier_thorough() ? 1 : 3)) {
         uint8_t *k = place(0, a, len, KEY);
         cur_fn = "skinny128_set_key"; snprintf(cur_case, sizeof(cur_case), "c09 set_key128 len=%u key+%d", len, a);
+        if (CASE_SKIP()) continue;
         memset(&t128, 0, sizeof(t128)); memset(&r128, 0, sizeof(r128));
         GUARDED(LIB(skinny128_set_key(&t128.ks, k, len))); ptrs[0] = k; lens[0] = len; after_call(1, regs, ptrs, lens);
         skinny128_set_key(&r128.ks, KEY, len);
@@ -157,6 +164,7 @@ static void run_setup_args(void)
     for (len = 8; len <= 24; ++len) for (a = 0; a < 32; a += (tier_thorough() ? 1 : 3)) {
         uint8_t *k = place(0, a, len, KEY);
         cur_fn = "skinny64_set_key"; snprintf(cur_case, sizeof(cur_case), "c09 set_key64 len=%u key+%d", len, a);
+        if (CASE_SKIP()) continue;
         memset(&t64, 0, sizeof(t64)); memset(&r64, 0, sizeof(r64));
         GUARDED(LIB(skinny64_set_key(&t64.ks, k, len))); ptrs[0] = k; lens[0] = len; after_call(1, regs, ptrs, lens);
         skinny64_set_key(&r64.ks, KEY, len);
@@ -175,6 +183,7 @@ static void run_setup_args(void)
     for (len = 1; len <= 16; ++len) for (a = 0; a < 32; ++a) {
         uint8_t *t = place(0, a, len, TWEAK);
         cur_fn = "skinny128_set_tweak"; snprintf(cur_case, sizeof(cur_case), "c09 set_tweak128 len=%u tweak+%d", len, a);
+        if (CASE_SKIP()) continue;
         r128 = t128; GUARDED(LIB(skinny128_set_tweak(&t128, t, len))); ptrs[0] = t; lens[0] = len; after_call(1, regs, ptrs, lens);
         skinny128_set_tweak(&r128, TWEAK, len);
         if (memcmp(&t128, &r128, sizeof(t128))) fail("result-depends-on-alignment", "schedule differs from the aligned call");
@@ -190,6 +199,7 @@ static void run_setup_args(void)
     for (a = 0; a < 32; ++a) {
         uint8_t *k = place(0, a, 16, KEY), *t;
         cur_fn = "mantis_set_key"; snprintf(cur_case, sizeof(cur_case), "c09 mantis key+%d", a);
+        if (CASE_SKIP()) continue;
         memset(&m1, 0, sizeof(m1)); memset(&m2, 0, sizeof(m2));
         GUARDED(LIB(mantis_set_key(&m1, k, 16, 6, a & 1))); ptrs[0] = k; lens[0] = 16; after_call(1, regs, ptrs, lens);
         mantis_set_key(&m2, KEY, 16, 6, a & 1);
@@ -209,18 +219,19 @@ static void run_setup_args(void)
             arena_reset(); memset(&o, 0, sizeof(o)); memset(&r, 0, sizeof(r));
             ctr_init((Cipher)c, be, &o); ctr_init((Cipher)c, be, &r);
             snprintf(cur_case, sizeof(cur_case), "c09 ctr-args %s %s klen=%u clen=%u align+%d", cipher_name((Cipher)c), be_name(be), klen, len, a);
+            if (CASE_SKIP()) continue;
             k = place(0, a, klen, KEY);
             cur_fn = "ctr_set_key";
-            if (c != CK_MANTIS && (len & 1)) { ctr_set_tweaked_key((Cipher)c, &o, k, klen > 2u * (unsigned)bs ? 2u * (unsigned)bs : klen); ctr_set_tweaked_key((Cipher)c, &r, KEY, klen > 2u * (unsigned)bs ? 2u * (unsigned)bs : klen); }
-            else { ctr_set_key((Cipher)c, &o, k, klen, 5); ctr_set_key((Cipher)c, &r, KEY, klen, 5); }
+            if (c != CK_MANTIS && (len & 1)) { GUARDED(ctr_set_tweaked_key((Cipher)c, &o, k, klen > 2u * (unsigned)bs ? 2u * (unsigned)bs : klen)); ctr_set_tweaked_key((Cipher)c, &r, KEY, klen > 2u * (unsigned)bs ? 2u * (unsigned)bs : klen); }
+            else { GUARDED(ctr_set_key((Cipher)c, &o, k, klen, 5)); ctr_set_key((Cipher)c, &r, KEY, klen, 5); }
             ptrs[0] = k; lens[0] = klen; after_call(1, regs, ptrs, lens);
             if (len >= 1 && (c == CK_MANTIS ? len == 8 : (len & 1))) {
                 t = place(0, a, len, TWEAK); cur_fn = "ctr_set_tweak";
-                ctr_set_tweak((Cipher)c, &o, t, len); ctr_set_tweak((Cipher)c, &r, TWEAK, len);
+                GUARDED(ctr_set_tweak((Cipher)c, &o, t, len)); ctr_set_tweak((Cipher)c, &r, TWEAK, len);
                 ptrs[0] = t; lens[0] = len; after_call(1, regs, ptrs, lens);
             }
             cv = place(0, a, len, CTRV); cur_fn = "ctr_set_counter";
-            ctr_set_counter((Cipher)c, &o, cv, len); ctr_set_counter((Cipher)c, &r, CTRV, len);
+            GUARDED(ctr_set_counter((Cipher)c, &o, cv, len)); ctr_set_counter((Cipher)c, &r, CTRV, len);
             ptrs[0] = cv; lens[0] = len; after_call(1, regs, ptrs, lens);
             ctr_encrypt((Cipher)c, &o, o1, z, 33); ctr_encrypt((Cipher)c, &r, o2, z, 33);
             if (memcmp(o1, o2, 33)) fail("result-depends-on-alignment", "keystream differs from the aligned set-up");
@@ -256,6 +267,7 @@ static void run_bulk(void)
                 ctr_set_counter((Cipher)c, &o, CTRV, (unsigned)bs);
                 cur_fn = "ctr_encrypt";
                 snprintf(cur_case, sizeof(cur_case), "c09 ctr %s %s len=%zu in+%d out+%d %s", cipher_name((Cipher)c), be_name(be), n, ai, ao, mode == 2 ? "aliased" : "");
+                if (CASE_SKIP()) continue;
                 in = place(0, ai, n, DATA);
                 if (mode == 2) out = in; else out = place(1, ao, n, NULL);
                 GUARDED(ctr_encrypt((Cipher)c, &o, out, in, n));
@@ -282,6 +294,7 @@ static void run_bulk(void)
                 par_crypt((Cipher)c, &o, ref, DATA, TW, n, dir);
                 cur_fn = "parallel_ecb_crypt";
                 snprintf(cur_case, sizeof(cur_case), "c09 par %s %s len=%zu dir=%d in+%d out+%d %s", cipher_name((Cipher)c), be_name(be), n, dir, ai, ao, mode ? "aliased" : "");
+                if (CASE_SKIP()) continue;
                 in = place(0, ai, n, DATA);
                 out = mode ? in : place(1, ao, n, NULL);
                 tw = place(2, (ai * 5 + ao) & 31, c == CK_MANTIS ? n : 1, TW);
